@@ -24,10 +24,47 @@ Sum(f, c) == f[c][3]
 Restarted(f, g) == {c \in DOMAIN f : Nrw(g, c) < Nrw(f, c)}
 RestartOK(f, g) == \A c \in Restarted(f, g) : Nrw(g, c) = 0 /\ Sum(g, c) = 0 /\ Cnt(g, c) = Cnt(f, c)
 
-CreditOK(f, g, c, r) == g = [f EXCEPT ![c] = <<f[c][1] + 1, f[c][2] + 1, f[c][3] + r, f[c][4]>>]
+CreditOK(f, g, c, r) == g = [f EXCEPT ![c] = <<f[c][1] + 1, f[c][2] + 1, f[c][3] + r, f[c][4], f[c][5]>>]
 
 \* validation mean as an exact rational; candidates not yet re-evaluated do not compete
 MeanGeq(f, c, d) == Sum(f, c) * Nrw(f, d) >= Sum(f, d) * Nrw(f, c)
 RecBest(f, cand) ==
   LET E == {c \in cand : Nrw(f, c) > 0} IN {c \in E : \A d \in E : MeanGeq(f, c, d)}
+
+(***************************************************************************)
+(* The schedule as PyXAB implements it (a power-of-two variant of the       *)
+(* published one, docs/.../StroquOOL.png), for consecutive time labels      *)
+(* 1, 2, ...  Not needed by any listed property; it extends the             *)
+(* specification to the rest of the algorithm's behaviour.                  *)
+(*   root phase : the root's first child hmax times, then its second        *)
+(*                child hmax times;                                         *)
+(*   opening    : for depth d = 1..hmax, for p = floor(log2(hmax/d)) down   *)
+(*                to 0: open the unopened cell of depth d with at least     *)
+(*                2^p evaluations and the highest mean (if there is none,   *)
+(*                the cell opened last is used again); evaluate its first   *)
+(*                child 2^p times, then its second child 2^p times;         *)
+(*   validation : for p = 0..pmax the evaluated cell with at least 2^p      *)
+(*                evaluations and the highest recorded mean is a candidate; *)
+(*                each candidate slot is re-evaluated hmax times.           *)
+(* Schedule state z: ph, d, p, m (cell being opened), k (1/2), c (count).   *)
+(***************************************************************************)
+Log2Floor(x) == IF x < 1 THEN -1 ELSE CHOOSE e \in 0 .. 30 : 2 ^ e <= x /\ x < 2 ^ (e + 1)
+PStart(hmax, d) == Log2Floor(hmax \div d)          \* floor(log2(hmax/d)) = floor(log2(floor(hmax/d)))
+ZInit == [ph |-> "root", d |-> 0, p |-> 0, m |-> 1, k |-> 1, c |-> 0, slot |-> 0, fresh |-> TRUE]
+
+\* cells that may be opened now: unopened, depth d, at least 2^p evaluations, maximal exact mean
+Qualifying(T, f, d, p) == IF d + 1 \in DOMAIN T.layers THEN {c \in SeqRange(T.layers[d + 1]) : f[c][4] = 0 /\ Cnt(f, c) >= 2 ^ p} ELSE {}
+MeanGeqAll(f, c, d) == Sum(f, c) * Nrw(f, d) >= Sum(f, d) * Nrw(f, c)
+OpenChoices(T, f, d, p) == LET Q == Qualifying(T, f, d, p) IN {c \in Q : \A e \in Q : MeanGeqAll(f, c, e)}
+
+\* after the evaluation that completes kid k of the cell being opened: the next schedule state
+AfterKid(hmax, z) ==
+  IF z.k = 1 THEN [z EXCEPT !.k = 2, !.c = 0]
+  ELSE IF z.ph = "root" THEN [ph |-> "open", d |-> 1, p |-> PStart(hmax, 1), m |-> z.m, k |-> 1, c |-> 0, slot |-> 0, fresh |-> TRUE]
+  ELSE LET p1 == z.p - 1 IN
+       IF p1 >= 0 THEN [z EXCEPT !.p = p1, !.k = 1, !.c = 0, !.fresh = TRUE]
+       ELSE LET d1 == z.d + 1 IN
+            IF d1 > hmax THEN [z EXCEPT !.ph = "val", !.d = d1, !.k = 1, !.c = 0, !.slot = 0, !.fresh = TRUE]
+            ELSE [z EXCEPT !.d = d1, !.p = PStart(hmax, d1), !.k = 1, !.c = 0, !.fresh = TRUE]
+Quota(hmax, z) == IF z.ph = "root" \/ z.ph = "val" THEN hmax ELSE 2 ^ z.p
 =============================================================================
